@@ -219,6 +219,13 @@ func main() {
 			}
 		}
 		finish()
+	case "protos":
+		names := []string{}
+		for n := range protos {
+			names = append(names, n)
+		}
+		sort.Strings(names)
+		fmt.Println(strings.Join(names, " "))
 	case "gen-tables":
 		if len(os.Args) < 3 {
 			fmt.Fprintln(os.Stderr, "usage: vh gen-tables gendir")
